@@ -278,7 +278,14 @@ def run(out, tier, model_ok=True):
     if forced_twin:
       ops = [o for o in ops if o[0] != 'sibling'] + [('greedy',), ('results',), ('exhaustive',), ('results',)]
     extras = {}
-    if rng.random() < 0.45:       # reconfiguration of the object between calls
+    if i % 10 == 7:
+      # every tenth history: designs are enumerated, the size / ratio constraints are changed, designs are enumerated again
+      field, val = rng.choice([('control_geos_range', [1, 1]), ('control_geos_range', [1, 2]), ('geo_ratio_tolerance', 0.25),
+                               ('geo_ratio_tolerance', 1.0), ('treatment_geos_range', [1, 1])])
+      for k in ('budget_range', 'treatment_share_range', 'n_geos_max'):
+        inst['params'].pop(k, None)
+      ops = [('exhaustive',), ('ctl', [0]), ('setparam', field, val), ('ctl', [0]), ('count',), ('exhaustive',), ('results',), ('greedy',)]
+    elif rng.random() < 0.45:       # reconfiguration of the object between calls
       field, val = rng.choice([('n_designs', 2), ('geo_ratio_tolerance', 1.0), ('geo_ratio_tolerance', 0.25),
                                ('control_geos_range', [1, 2]), ('control_geos_range', [1, 1]), ('treatment_geos_range', [1, 1]),
                                ('treatment_geos_range', [2, 3]), ('volume_ratio_tolerance', None), ('budget_range', None),
